@@ -127,6 +127,11 @@ def cls_for(d):
         # a removed model keeps its helpers; graph classes refuse (by design, AttributeError) to bind get_graph on a
         # model that already has one, so re-adding a REMOVED model is not comparable there — not a C10 clause
         pool = [c for c in pool if 'Graph' not in c]
+    cb_kinds = set(c[0] for cmds, _o in d.script.values() for c in cmds)
+    if ADD in cb_kinds and REMOVE in cb_kinds:
+        # a callback may remove and re-add the very model whose transition is in progress, which resets its state
+        # mid-transition; hierarchical classes then resolve exits from that configuration (C09's business)
+        pool = [c for c in pool if 'Hierarchical' not in c]
     return pool[int(flatcheck.fingerprint(d), 16) % len(pool)]
 
 
